@@ -116,8 +116,11 @@ def run_verus_unit(cfg, work, seed, rlimit, repo=None):
 # ---------------------------------------------------------------------------------------------
 # Kani units
 
-def prepare_workrepo(work, kani_cfgs, oracle_cfgs):
+def prepare_workrepo(work, kani_cfgs, oracle_cfgs, side_cfg=None):
     wr = common.sync_repo(work)
+    if side_cfg:
+        import side
+        side.mount_battery(wr, side_cfg)
     for k in kani_cfgs:
         common.append_file(os.path.join(wr, k['mount']),
                            '\n#[cfg(any(kani, test))]\n#[path = "%s/kani/%s.rs"]\nmod %s;\n' % (HERE, k['unit'], k['mod']))
@@ -361,7 +364,7 @@ def main():
     wr = None
     kres = None
     if kcfgs:
-        wr = prepare_workrepo(work, kcfgs, ocfgs)
+        wr = prepare_workrepo(work, kcfgs, ocfgs, P.get('side'))
         log('[%s] kani units %s ...' % (pid, [k['unit'] for k in kcfgs]))
         kres = run_kani_units(kcfgs, wr, work, tier)
         log('[%s]   %d obligations, %d discharged, %d failed, %d undecided, %.1fs' % (
@@ -419,6 +422,8 @@ def main():
         undecided.append('baseline obligations not regenerated from the current tree: %s' % lost[:6])
 
     # side obligations (syntactic + native replay battery)
+    if P.get('side') and wr is None:
+        wr = prepare_workrepo(work, kcfgs, ocfgs, P.get('side'))
     side_res = side.run(pid, P, common.REPO, wr, work, tier, seed) if P.get('side') else None
 
     # known findings
@@ -457,7 +462,7 @@ def main():
             for o in ocfgs:
                 if any(n.startswith(o['unit'] + '/') for n in vfailed):
                     if wr is None:
-                        wr = prepare_workrepo(work, kcfgs, ocfgs)
+                        wr = prepare_workrepo(work, kcfgs, ocfgs, P.get('side'))
                     log('[%s] native oracle %s: searching for a failing input on the real code ...' % (pid, o['unit']))
                     orc = run_oracle(o, wr, seed, vfailed, 20000 if tier == 'quick' else 200000)
                     rep['oracle'] = orc
@@ -472,7 +477,7 @@ def main():
     sweep = None
     if tier == 'thorough' and ocfgs and not violations:
         if wr is None:
-            wr = prepare_workrepo(work, kcfgs, ocfgs)
+            wr = prepare_workrepo(work, kcfgs, ocfgs, P.get('side'))
         sweep = []
         for o in ocfgs:
             orc = run_oracle(o, wr, seed, [], 100000)
@@ -490,6 +495,10 @@ def main():
 
     for n, what in known_hits:
         log('KNOWN-FINDING: property=%s %s (%s)' % (pid, n, what))
+    for f in (side_res or {}).get('known', []):
+        log('KNOWN-FINDING: property=%s %s %s' % (pid, f['obligation'], f['what'][:300]))
+    if side_res and side_res.get('battery') and not side_res['battery']['ran']:
+        undecided.append('side battery did not run: %s' % side_res['battery']['tail'][-400:])
     if violations:
         for n in refuted:
             log('[%s] REFUTED %s :: %s' % (pid, n, '; '.join(failed[n])[:400]))
@@ -586,7 +595,7 @@ def replay_file(pid, P, path, work):
         return 2
     log('[%s] replay of %s' % (pid, path))
     log(json.dumps({k: rep[k] for k in ('failed_obligations',) if k in rep}, indent=1)[:3000])
-    wr = prepare_workrepo(work, P.get('kani', []), P.get('oracles', []))
+    wr = prepare_workrepo(work, P.get('kani', []), P.get('oracles', []), P.get('side'))
     rc = 0
     for ce in rep.get('counterexamples', []):
         nr = ce.get('native_replay')
